@@ -46,6 +46,16 @@ enum Op {
     Index(usize, u64),
     IsEmpty(usize),
     ToVec(usize),
+    /// `h.clone().into_iter()`: this thread's (one) live Rust-side iterator over list `l`
+    IterNew(usize),
+    /// `it.next()` — one `List::get` at the iterator's index: an iteration is a
+    /// sequence of separate critical sections
+    IterNext,
+    /// the iterator is dropped (with its handle)
+    IterDrop,
+    /// `IterNext` as the oracle sees it once the cursor is known (never generated
+    /// or printed): the `get` at the cursor — the cursor moves iff `next` yielded
+    IterGet(usize, usize),
 }
 
 impl Op {
@@ -66,6 +76,9 @@ impl Op {
             Op::Index(l, v) => format!("x{l}.{v}"),
             Op::IsEmpty(l) => format!("y{l}"),
             Op::ToVec(l) => format!("t{l}"),
+            Op::IterNew(l) => format!("I{l}"),
+            Op::IterNext | Op::IterGet(..) => "N".into(),
+            Op::IterDrop => "Q".into(),
         }
     }
     fn kind(&self) -> &'static str {
@@ -89,6 +102,9 @@ impl Op {
             Op::Index(..) => "index",
             Op::IsEmpty(..) => "is_empty",
             Op::ToVec(..) => "to_vec",
+            Op::IterNew(..) => "iter-new",
+            Op::IterNext | Op::IterGet(..) => "iter-next",
+            Op::IterDrop => "iter-drop",
         }
     }
     /// the operation as the model has it: the typed `==` and the script's
@@ -103,6 +119,12 @@ impl Op {
         }
     }
     fn parse(s: &str) -> Option<Op> {
+        match s {
+            "N" => return Some(Op::IterNext),
+            "Q" => return Some(Op::IterDrop),
+            "" => return None,
+            _ => {}
+        }
         let (k, rest) = s.split_at(1);
         let n: Vec<u64> = rest.split('.').map(|x| x.parse().ok()).collect::<Option<_>>()?;
         Some(match (k, n.as_slice()) {
@@ -121,6 +143,7 @@ impl Op {
             ("x", [l, v]) => Op::Index(*l as usize, *v),
             ("y", [l]) => Op::IsEmpty(*l as usize),
             ("t", [l]) => Op::ToVec(*l as usize),
+            ("I", [l]) => Op::IterNew(*l as usize),
             _ => return None,
         })
     }
@@ -201,6 +224,40 @@ impl Case {
             .map(|p| if p.is_empty() { Some(vec![]) } else { p.split(',').map(Op::parse).collect() })
             .collect::<Option<Vec<_>>>()?;
         Some(Case { lists, progs, elem: false, script: false })
+    }
+    /// some thread drives a Rust-side iterator (an adaptive program)
+    fn has_iter(&self) -> bool {
+        self.progs.iter().flatten().any(|o| matches!(o, Op::IterNew(..) | Op::IterNext | Op::IterDrop))
+    }
+    /// The programs as the property oracle sees them: every `next` that has a
+    /// result (and the one in progress) is the `get` at the iterator's cursor,
+    /// where the cursor starts at 0 and moves iff `next` yielded an element —
+    /// the shared-vector meaning of an iterator, independent of the model.
+    fn resolved(&self, results: &[Vec<Res>]) -> Case {
+        let mut c = self.clone();
+        for (t, p) in c.progs.iter_mut().enumerate() {
+            let mut cur: Option<(usize, usize)> = None;
+            for (k, op) in p.iter_mut().enumerate() {
+                let res = results.get(t).and_then(|r| r.get(k));
+                match op {
+                    Op::IterNew(l) => cur = Some((*l, 0)),
+                    Op::IterDrop => cur = None,
+                    Op::IterNext => {
+                        if let Some((l, i)) = cur {
+                            *op = Op::IterGet(l, i);
+                            if let Some(Res::Opt(Some(_))) = res {
+                                cur = Some((l, i + 1));
+                            }
+                        }
+                    }
+                    _ => {}
+                }
+                if res.is_none() {
+                    break; // what comes after the operation in progress depends on its result
+                }
+            }
+        }
+        c
     }
     fn json(&self) -> serde_json::Value {
         let mut j = json!({"lists": self.lists_text(), "progs": self.progs_text()});
@@ -310,6 +367,7 @@ fn script_op_u64(op: &Op, bag: &[Vec<L>]) -> Option<ScriptOut<u64>> {
         Op::Eq(a, b) => ScriptOut::Res(Res::Bool(f.eq.call(h(a), h(b)))),
         // no script-side adapter: the Rust side
         Op::EqTyped(..) | Op::ToVec(..) | Op::Clone(..) | Op::Drop(..) => return None,
+        Op::IterNew(..) | Op::IterNext | Op::IterDrop | Op::IterGet(..) => return None,
     })
 }
 
@@ -451,6 +509,14 @@ fn ev_letter(e: &hk::Event) -> char {
 
 /// generous: the machine may be heavily loaded; a real hang ends the case
 const STEP_LIMIT: Duration = Duration::from_secs(20);
+/// steps that did not come back so far in this process: after two of them (the
+/// tree is reported as violating anyway) the following ones wait 3 s only, so that
+/// a change that blocks on an unannounced lock in many cases does not cost
+/// 20 s for each of them
+static HUNG_STEPS: std::sync::atomic::AtomicUsize = std::sync::atomic::AtomicUsize::new(0);
+fn step_limit() -> Duration {
+    if HUNG_STEPS.load(std::sync::atomic::Ordering::SeqCst) >= 2 { Duration::from_secs(3) } else { STEP_LIMIT }
+}
 
 /// what a thread hands back: results, spans are computed by the controller
 struct ThreadOut<E: El> {
@@ -472,6 +538,9 @@ fn run_thread<E: El>(
 ) -> ThreadOut<E> {
     session.attach(tid);
     let mut results = vec![];
+    // this thread's live iterator: (list, iterator, a second handle through which the
+    // final contents can be read if the iterator is alive at the end)
+    let mut iter: Option<(usize, <List<E::T> as IntoIterator>::IntoIter, List<E::T>)> = None;
     let r = std::panic::catch_unwind(std::panic::AssertUnwindSafe(|| {
         for (opi, op) in prog.iter().enumerate() {
             // one value of an element; different halves = a value that never was in the list
@@ -554,6 +623,24 @@ fn run_thread<E: El>(
                     }
                     Res::Bool(E::erased_eq(bag[*a].last().unwrap(), bag[*b].last().unwrap()))
                 }
+                Op::IterNew(l) => {
+                    hk::sched_op("harness:iter-new");
+                    let h = bag[*l].last().unwrap();
+                    iter = Some((*l, h.clone().into_iter(), h.clone()));
+                    Res::Unit
+                }
+                Op::IterNext | Op::IterGet(..) => match iter.as_mut() {
+                    Some((_, it, _)) => Res::Opt(it.next().map(|e| one(E::halves(&e)))),
+                    None => panic!("harness: `next` without an iterator"),
+                },
+                Op::IterDrop => {
+                    hk::sched_op("harness:iter-drop");
+                    if let Some((_, it, keep)) = iter.take() {
+                        drop(keep);
+                        drop(it);
+                    }
+                    Res::Unit
+                }
                 },
             };
             done.lock().unwrap()[tid].push(res.clone());
@@ -578,6 +665,10 @@ fn run_thread<E: El>(
         }
     }
     session.finish(tid);
+    if let Some((l, it, keep)) = iter.take() {
+        bag[l].push(keep);
+        drop(it);
+    }
     ThreadOut { results, handles: bag }
 }
 
@@ -647,7 +738,8 @@ fn exec_with<E: El>(case: &Case, prefix: &[usize], extend: bool) -> Exec {
     let mut first_step: Vec<Option<usize>> = vec![None; n];
     let mut cur_steps: Vec<Vec<usize>> = vec![vec![]; n];
     let mut completed: Vec<usize> = vec![0; n];
-    if !session.wait_quiescent(STEP_LIMIT) {
+    if !session.wait_quiescent(step_limit()) {
+        HUNG_STEPS.fetch_add(1, std::sync::atomic::Ordering::SeqCst);
         ex.end = "hung".into();
     }
     let mut k = 0usize;
@@ -686,7 +778,7 @@ fn exec_with<E: El>(case: &Case, prefix: &[usize], extend: bool) -> Exec {
             hk::Status::Parked { site, .. } => site.to_string(),
             _ => String::new(),
         };
-        let (end, evs) = session.grant(t, STEP_LIMIT);
+        let (end, evs) = session.grant(t, step_limit());
         let letters: String = evs.iter().map(ev_letter).collect();
         for e in &evs {
             match e {
@@ -712,6 +804,7 @@ fn exec_with<E: El>(case: &Case, prefix: &[usize], extend: bool) -> Exec {
         }
         k += 1;
         if end == hk::StepEnd::Hung {
+            HUNG_STEPS.fetch_add(1, std::sync::atomic::Ordering::SeqCst);
             ex.end = "hung".into();
         } else if letters.contains('S') {
             ex.end = "trap".into();
@@ -810,7 +903,10 @@ fn enumerate_real(case: &Case, limit: usize) -> (Vec<Exec>, bool) {
 /// sequential specification on plain vectors
 fn spec_op(lists: &mut [Vec<u64>], op: &Op) -> Res {
     match op {
-        Op::Get(l, i) | Op::FfiGet(l, i) => Res::Opt(lists[*l].get(*i).copied()),
+        Op::Get(l, i) | Op::FfiGet(l, i) | Op::IterGet(l, i) => Res::Opt(lists[*l].get(*i).copied()),
+        Op::IterNew(_) | Op::IterDrop => Res::Unit,
+        // (a `next` whose cursor is not known has no result to explain)
+        Op::IterNext => Res::Uaf,
         Op::Push(l, v) => {
             lists[*l].push(*v);
             Res::Unit
@@ -879,6 +975,11 @@ fn linearizable(case: &Case, ex: &Exec) -> bool {
 /// the final lists: the only departure from atomicity is `concat` reading its
 /// operands in two critical sections.
 fn explained_by_two_section_concat(case: &Case, ex: &Exec) -> bool {
+    // (only a history with a concat can be explained by it; an operation that
+    // passed no schedule point at all has no step to be replayed at)
+    if !case.progs.iter().flatten().any(|o| matches!(o, Op::Concat(..) | Op::Plus(..))) {
+        return false;
+    }
     let n = case.progs.len();
     let mut lists = case.lists.clone();
     let mut snap: Vec<Option<Vec<u64>>> = vec![None; n];
@@ -936,7 +1037,7 @@ fn op_at(case: &Case, ex: &Exec, t: usize, k: usize) -> Option<Op> {
 }
 
 /// check one executed schedule against the property; report violations
-fn judge(case: &Case, ex: &Exec, rep: &mut Report) {
+fn judge_resolved(orig: &Case, case: &Case, ex: &Exec, rep: &mut Report) {
     for (t, opi, what) in &ex.flags {
         let opk = case.progs.get(*t).and_then(|p| p.get(*opi)).map(|o| o.kind()).unwrap_or("final-contents");
         if let Some(msg) = what.strip_prefix("panic ") {
@@ -944,7 +1045,7 @@ fn judge(case: &Case, ex: &Exec, rep: &mut Report) {
                 "a list operation panicked (in the shared-vector model every operation returns; the panic also poisons the list's lock for every other handle)",
                 &format!("panic-in-operation {opk}"),
                 {
-                    let mut j = replay_json(case, ex);
+                    let mut j = replay_json(orig, ex);
                     j["panic"] = json!(msg);
                     j
                 },
@@ -954,7 +1055,7 @@ fn judge(case: &Case, ex: &Exec, rep: &mut Report) {
                 "an operation returned an element whose two halves differ (every element ever stored has equal halves): the element was read while another thread was writing it",
                 &format!("torn-element {opk}"),
                 {
-                    let mut j = replay_json(case, ex);
+                    let mut j = replay_json(orig, ex);
                     j["torn"] = json!(what);
                     j
                 },
@@ -963,7 +1064,7 @@ fn judge(case: &Case, ex: &Exec, rep: &mut Report) {
             rep.violation(
                 "the result of concat is one of its operands, not a fresh list (a later push through one handle is seen through the other)",
                 &format!("{what} {opk}"),
-                replay_json(case, ex),
+                replay_json(orig, ex),
             );
         }
     }
@@ -974,7 +1075,7 @@ fn judge(case: &Case, ex: &Exec, rep: &mut Report) {
             rep.violation(
                 "an element was read through a pointer obtained before another thread's push reallocated the buffer (use after free)",
                 &format!("stale-pointer-use {opk} at {site}"),
-                replay_json(case, ex),
+                replay_json(orig, ex),
             );
         }
         if letters.contains('O') {
@@ -982,7 +1083,7 @@ fn judge(case: &Case, ex: &Exec, rep: &mut Report) {
             rep.violation(
                 "an element pointer is held across a schedule point while the list's mutex is free (it outlives its critical section)",
                 &format!("pointer-outside-lock {opk} at {site}"),
-                replay_json(case, ex),
+                replay_json(orig, ex),
             );
         }
     }
@@ -999,13 +1100,13 @@ fn judge(case: &Case, ex: &Exec, rep: &mut Report) {
             rep.violation(
                 "deadlock: every unfinished thread waits for a list mutex held by another",
                 &format!("deadlock {}", kinds.join("+")),
-                replay_json(case, ex),
+                replay_json(orig, ex),
             );
         }
         "hung" => rep.violation(
             "a step did not reach its next schedule point within the time limit",
             "hung-step",
-            replay_json(case, ex),
+            replay_json(orig, ex),
         ),
         "ok" => {
             if !linearizable(case, ex) {
@@ -1020,11 +1121,20 @@ fn judge(case: &Case, ex: &Exec, rep: &mut Report) {
                 rep.violation(
                     "the results of this schedule are not those of any sequential order of the operations that respects real-time order",
                     &format!("not-linearizable {who}"),
-                    replay_json(case, ex),
+                    replay_json(orig, ex),
                 );
             }
         }
         _ => {}
+    }
+}
+
+/// a thread that drives an iterator is judged as the `get`s at its cursor
+fn judge(case: &Case, ex: &Exec, rep: &mut Report) {
+    if case.has_iter() {
+        judge_resolved(case, &case.resolved(&ex.results), ex, rep)
+    } else {
+        judge_resolved(case, case, ex, rep)
     }
 }
 
@@ -1135,6 +1245,8 @@ fn small_programs() -> Vec<Vec<Op>> {
             out.push(vec![x.clone(), y.clone()]);
         }
     }
+    // a live iterator over the full list (against every program above, and itself)
+    out.push(vec![Op::IterNew(0), Op::IterNext, Op::IterNext]);
     out
 }
 
@@ -1254,6 +1366,54 @@ fn representatives() -> Vec<Case> {
             });
         }
     }
+    // (d) a LIVE Rust-side iterator (`IntoIter`: one `List::get` per `next`, so an
+    // iteration is a sequence of separate critical sections) against every kind
+    // of operation another thread may run between two calls: over `u64` (model +
+    // oracle: the operations issued are the `get`s at the cursor) and over probe
+    // elements (the clone inside `next` is a schedule point of its own)
+    let it = |l: usize, n: usize| -> Vec<Op> {
+        let mut p = vec![Op::IterNew(l)];
+        p.extend((0..n).map(|_| Op::IterNext));
+        p
+    };
+    for elem in [false, true] {
+        for other in [
+            vec![Op::Push(0, 7)],
+            vec![Op::Swap(0, 0, 1)],
+            vec![Op::Concat(0, 0)],
+            vec![Op::Eq(0, 1)],
+            vec![Op::ToVec(0)],
+            vec![Op::Drop(0)],
+            it(0, 2),
+        ] {
+            out.push(Case {
+                lists: vec![vec![1, 2, 3, 4], vec![1, 1, 3, 4]],
+                progs: vec![it(0, 2), other],
+                elem,
+                script: false,
+            });
+        }
+        // the iterator reaches the end (`None`), a push arrives, `next` again: it resumes
+        out.push(Case { lists: vec![vec![1, 2, 3, 4], vec![5]], progs: vec![it(1, 3), vec![Op::Push(1, 8)]], elem, script: false });
+        // made, used and dropped while the other thread drops its handle: the last one frees
+        let mut p = it(1, 1);
+        p.push(Op::IterDrop);
+        p.push(Op::Drop(1));
+        out.push(Case { lists: vec![vec![1, 2, 3, 4], vec![5]], progs: vec![p, vec![Op::Drop(1)]], elem, script: false });
+    }
+    // the iterating thread pushes to its own list between two calls; three threads
+    out.push(Case {
+        lists: vec![vec![1, 2, 3, 4], vec![5]],
+        progs: vec![vec![Op::IterNew(1), Op::IterNext, Op::Push(1, 9), Op::IterNext], vec![Op::Push(1, 8)]],
+        elem: false,
+        script: false,
+    });
+    out.push(Case {
+        lists: vec![vec![1, 2, 3, 4], vec![5]],
+        progs: vec![it(0, 2), vec![Op::Push(0, 7)], vec![Op::Swap(0, 0, 1)]],
+        elem: false,
+        script: false,
+    });
     for elem in [false, true] {
         for (a, b) in [(vec![], vec![1u64, 2]), (vec![1, 2], vec![]), (vec![], vec![])] {
             for c in [Op::Concat(0, 1), Op::Concat(1, 0), Op::Concat(0, 0)] {
@@ -1277,10 +1437,17 @@ fn random_elem_case(seed: u64, index: u64) -> Case {
             (0..len).map(|i| 1 + (i as u64 % 3)).collect()
         })
         .collect();
-    let mut progs = vec![];
+    let mut progs: Vec<Vec<Op>> = vec![];
     for _ in 0..2 {
         let n = 1 + rng.below(2) as usize;
         progs.push((0..n).map(|_| random_op(&mut rng)).collect());
+    }
+    // every 5th: thread 0 walks a list with a live iterator (the clone inside
+    // every `next` is a schedule point of its own)
+    if index % 5 == 2 {
+        let mut p = vec![Op::IterNew(rng.below(2) as usize)];
+        p.extend((0..1 + rng.below(2)).map(|_| Op::IterNext));
+        progs[0] = p;
     }
     Case { lists, progs, elem: true, script: false }
 }
@@ -1320,7 +1487,18 @@ fn case_for(seed: u64, thorough: bool, index: u64) -> Case {
             progs.push(with_drops(&p, &mut rng));
         }
         // every 8th random case goes through the script-side adapters
-        return Case { lists: random_lists(&mut rng), progs, elem: false, script: index % 8 == 3 };
+        let script = index % 8 == 3;
+        // every 10th: thread 0 drives a live iterator (1-2 calls of `next`, then
+        // maybe its drop) instead of its random program
+        if index % 10 == 7 && !script {
+            let mut p = vec![Op::IterNew(rng.below(2) as usize)];
+            p.extend((0..1 + rng.below(2)).map(|_| Op::IterNext));
+            if rng.chance(1, 3) {
+                p.push(Op::IterDrop);
+            }
+            progs[0] = p;
+        }
+        return Case { lists: random_lists(&mut rng), progs, elem: false, script };
     }
     let index = index - n_random(thorough);
     // 2b. random cases over probe elements
@@ -1344,7 +1522,9 @@ fn total_cases(thorough: bool) -> u64 {
 
 /// model's enumeration: schedule text -> observation
 fn model_enum(drv: &mut Driver, facts: &str, case: &Case) -> Result<BTreeMap<String, String>, String> {
-    let ans = drv.ask(&format!("c16 enum {facts} {} {}", case.lists_text(), case.model_progs_text()));
+    // adaptive programs (a live iterator): the driver issues the operations on the way
+    let req = if case.has_iter() { "ienum" } else { "enum" };
+    let ans = drv.ask(&format!("c16 {req} {facts} {} {}", case.lists_text(), case.model_progs_text()));
     if ans == "bad-op" {
         return Err("driver answered bad-op".into());
     }
@@ -1512,6 +1692,13 @@ fn stress_case(seed: u64, index: u64) -> Case {
         progs.push(p);
     }
     let len0 = *rng.pick(&[4usize, 4, 4, 8]);
+    // every 6th case: thread 1 walks list 0 with a live iterator (one critical
+    // section per `next`) to the end and one call beyond, while thread 0 pushes
+    if rng.chance(1, 6) {
+        let mut p = vec![Op::IterNew(0)];
+        p.extend((0..len0 + 2).map(|_| Op::IterNext));
+        progs[1] = p;
+    }
     // list 1: now and then equal to list 0, so that `==` walks to the end
     let l1: Vec<u64> = if rng.chance(1, 3) { (1..=len0 as u64).collect() } else { vec![5, 6, 7, 8] };
     Case { lists: vec![(1..=len0 as u64).collect(), l1], progs, elem: false, script: false }
@@ -1558,8 +1745,18 @@ fn run_stress_trial(case: &Case, spin: [u32; 2]) -> (Vec<Vec<Res>>, Vec<Vec<u64>
                 std::hint::spin_loop();
             }
             let mut out = vec![];
+            let mut iter: Option<<List<u64> as IntoIterator>::IntoIter> = None;
             for op in &prog {
                 out.push(match op {
+                    Op::IterNew(l) => {
+                        iter = Some(lists[*l].clone().into_iter());
+                        Res::Unit
+                    }
+                    Op::IterNext | Op::IterGet(..) => Res::Opt(iter.as_mut().and_then(|it| it.next())),
+                    Op::IterDrop => {
+                        iter = None;
+                        Res::Unit
+                    }
                     Op::Get(l, i) => Res::Opt(lists[*l].get(*i)),
                     Op::FfiGet(l, i) => Res::Opt(hk::ffi_get_u64(&lists[*l], *i as u64)),
                     Op::Push(l, v) => {
@@ -1613,6 +1810,8 @@ fn some_order_explains(case: &Case, results: &[Vec<Res>], lists: &[Vec<u64>]) ->
         }
         false
     }
+    // a thread that drives an iterator: every `next` is the `get` at its cursor
+    let case = &case.resolved(results);
     results.len() == 2
         && results[0].len() == case.progs[0].len()
         && results[1].len() == case.progs[1].len()
@@ -1967,7 +2166,8 @@ fn main() {
                     if case.elem {
                         println!("MODEL  (none: element-level schedule points are judged by the property oracle only)");
                     } else if let Ok(mut d) = Driver::spawn() {
-                        let m = d.ask(&format!("c16 run gen {} {} {}", case.lists_text(), case.model_progs_text(), s));
+                        let req = if case.has_iter() { "irun" } else { "run" };
+                        let m = d.ask(&format!("c16 {req} gen {} {} {}", case.lists_text(), case.model_progs_text(), s));
                         println!("MODEL  obs={m}");
                     }
                 }
